@@ -233,7 +233,8 @@ func vc14RunCfg(t *testing.T, cfg vq1Cfg) {
 		vc14Apply(t, f.Field, w, what)
 	}
 	bsig := f.bsiGroup(f.Name())
-	if !cfg.Reopen && bsig.BitDepth != cfg.Depth {
+	// (lead) since the D9 repair a new int field starts at bit depth 1, so data meant for depth 0 reports 1.
+	if !cfg.Reopen && bsig.BitDepth != cfg.Depth && !(cfg.Depth == 0 && bsig.BitDepth == 1) {
 		t.Fatalf("%s: the data was meant to drive the bit depth to %d, field reports %d", what, cfg.Depth, bsig.BitDepth)
 	}
 	nulls := vc14NullCols(prog, m)
@@ -360,6 +361,9 @@ func TestVerifC14_FieldRandom(t *testing.T) {
 	defer vkit.Flush()
 	rapid.Check(t, func(t *rapid.T) {
 		sp := vc14GenBounds(t)
+		if sp.Min == -math.MaxInt64 && vkit.Open("DQA8") {
+			vkit.Excluded("DQA8") // the lower bound stops one short of -2^63 (stored as -0 while DQA8 is open)
+		}
 		nshards := rapid.IntRange(2, 4).Draw(t, "nshards")
 		nops := rapid.IntRange(1, 14).Draw(t, "nops")
 		m := vq1NewIntModel(sp.Min, sp.Max)
